@@ -52,7 +52,7 @@ IsSubtype(ns1, n1, ns2, n2, kindOf) ==
        /\ IF ns1 = "System" THEN n1 = n2 ELSE n2 \in Ancestors(n1, kindOf)
 
 (* Name resolution for a type specifier: FHIR first, then System; case-sensitive. *)
-ValidFHIR(name, kindOf) == name \in DOMAIN kindOf \/ name \in AbstractFHIR
+ValidFHIR(name, kindOf) == name \in DOMAIN kindOf \/ name \in AbstractFHIR \/ name \in QuantityLike   \* the Quantity profiles are R4 types even where no resource uses them
 Resolve(ns, name, kindOf) ==    \* ns = "" for an unqualified name; result ns = "invalid" when Compile must reject it
   CASE ns = "FHIR"   -> IF ValidFHIR(name, kindOf) THEN T("FHIR", name) ELSE T("invalid", name)
     [] ns = "System" -> IF name \in SystemNames THEN T("System", name) ELSE T("invalid", name)
